@@ -648,7 +648,7 @@ func main() {
 		}
 		addLog("address-fields", formatOf(toks), toks, e)
 	}
-	for i := 0; i < run.Scale(30, 300); i++ { // no port: F-C20-1
+	for i := 0; i < run.Scale(30, 300); i++ { // no port (panicked until bb1b4e7)
 		e := genEvent(r, true, true)
 		f := pick(r, []string{"$upstream_host", "$upstream_port", "$remote_host", "$remote_port", "$upstream_addr $upstream_host"})
 		if strings.Contains(f, "remote") {
@@ -701,7 +701,7 @@ func main() {
 	for i := 0; i < run.Scale(60, 600); i++ {
 		local := i%3 == 0
 		if local {
-			time.Local = time.FixedZone("EEST", 3*3600) // a server whose TZ is not UTC
+			time.Local = time.FixedZone("EEST", 3*3600) // a server whose TZ is not UTC (lines were off by the offset until 1da7601)
 		} else {
 			time.Local = time.UTC
 		}
